@@ -20,6 +20,12 @@ SLICES = [
      "rules": [R("head", r"template <typename IStream>\s*uint64_t GolombRiceDecode\(BitStreamReader<IStream>& bitreader, uint8_t P\)", "uint64_t GolombRiceDecode(BitReader* bitreader, uint8_t P)"),
                R("stub:bitreader.Read", r"bitreader\.Read\(", "BitReader_Read(bitreader, ", True)],
      "loops": [{"match": r"while \(BitReader_Read\(bitreader, 1\) == 1\)", "contract": "LOOP_UNARY_R", "prologue": "((void)0)"}]},
+    {"name": "gcs_range_decode", "cname": "GCSFilter_range_decode", "kind": "frag", "file": "src/blockfilter.cpp", "within": r"GCSFilter::GCSFilter\(const Params& params, std::vector<unsigned char> encoded_filter, bool skip_decode_check\)\s*: m_params\(params\), m_encoded\(std::move\(encoded_filter\)\)",
+     "begin": r"m_F = ", "end": r"if \(skip_decode_check\) return;", "include_end": False,
+     "prologue": "uint64_t GCSFilter_range_decode(uint32_t m_N, uint32_t m_params_m_M)\n{\n    uint64_t m_F;", "epilogue": "    return m_F;\n}", "rules": [R("member:m_params.m_M", r"m_params\.m_M", "m_params_m_M", True)]},
+    {"name": "gcs_range_build", "cname": "GCSFilter_range_build", "kind": "frag", "file": "src/blockfilter.cpp", "within": r"GCSFilter::GCSFilter\(const Params& params, const ElementSet& elements\)\s*: m_params\(params\)",
+     "begin": r"m_F = ", "end": r"VectorWriter stream", "include_end": False,
+     "prologue": "uint64_t GCSFilter_range_build(uint32_t m_N, uint32_t m_params_m_M)\n{\n    uint64_t m_F;", "epilogue": "    return m_F;\n}", "rules": [R("member:m_params.m_M", r"m_params\.m_M", "m_params_m_M", True)]},
 ]
 PLAN = {
     "id": "C51", "level": "proof", "slices": SLICES, "spec": "spec.c", "default_solver": ["cadical", "z3"],
@@ -31,7 +37,8 @@ PLAN = {
         {"name": "h_lemma_golomb_roundtrip", "replace": ["GolombRiceEncode", "GolombRiceDecode"], "twins": [{"define": "TWIN_RT", "expect": "assertion"}]},
         {"name": "h_lemma_no_false_negative", "replace": ["CBloomFilter_insert", "CBloomFilter_contains"], "twins": [{"define": "TWIN_OTHER_KEY", "expect": "assertion"}]},
     ],
-    "native": {"src": "replay.cpp", "c_src": "native_slices.c", "repo_sources": ["src/common/bloom.cpp"], "diff_n_quick": 3000, "diff_n_thorough": 300000,
+    "wp_int": {"file": "wp.json"},
+    "native": {"src": "replay.cpp", "c_src": "native_slices.c", "repo_sources": ["src/common/bloom.cpp", "src/blockfilter.cpp"], "diff_n_quick": 3000, "diff_n_thorough": 300000,
                "libs": ["libbitcoin_common.a", "libbitcoin_consensus.a", "libbitcoin_util.a", "libbitcoin_clientversion.a", "libbitcoin_crypto.a", "/repo/_build/src/secp256k1/lib/libsecp256k1.a"]},
     "not_covered": ["BitStreamWriter / BitStreamReader themselves (the bit stream under Golomb-Rice coding is a ghost event stream: a run of one bits, a zero bit, a P-bit field; its FIFO law is assumed)", "MurmurHash3 and the reduction `% (vData.size() * 8)` inside CBloomFilter::Hash (the hash is a deterministic ghost table per hash number with the range ASSUMED)", "BIP158 GCS filter construction and matching (hashing to the range, sorting, deltas), the rolling bloom filter, partial merkle trees, IsRelevantAndUpdate"],
     "assumptions": ["CBloomFilter::Hash(i, key) is a ghost table g_hash[i] (same key => same values) with g_hash[i] < 8 * vData.size() ASSUMED (the property of `%` that no back end decides here)",
@@ -39,9 +46,9 @@ PLAN = {
     "manifest": {
         "category": "proof",
         "text": "partial (plain bloom filter, Golomb-Rice coding): CBloomFilter::insert sets, for every hash number below nHashFuncs, exactly the bit the hash selects and never clears a bit (empty filter: no-op); contains returns true for an empty filter and otherwise reports a mismatch only when some selected bit is clear; "
-                "hence (contract-only lemma) a key is matched after it has been inserted, also after any number of other inserts -- no false negatives; GolombRiceEncode writes x >> P one bits, a zero bit and the low P bits of x, GolombRiceDecode reads such a stream back as (ones << P) + field, so decode(encode(x)) == x for every x and every P below 64 (the element coding of BIP158 filters).",
+                "hence (contract-only lemma) a key is matched after it has been inserted, also after any number of other inserts -- no false negatives; GolombRiceEncode writes x >> P one bits, a zero bit and the low P bits of x, GolombRiceDecode reads such a stream back as (ones << P) + field, so decode(encode(x)) == x for every x and every P below 64 (the element coding of BIP158 filters); both GCSFilter constructors compute the hash range F = N * M without wrapping (Int back end), so a filter decoded from bytes hashes queries into the range its elements were hashed into.",
         "note": "Not covered: the hash function itself, GCS / Golomb-Rice, rolling bloom, partial merkle trees.",
-        "technique": "CBMC function contracts with loop contracts on extracted common/bloom.cpp insert / contains, contract-only lemma",
+        "technique": "CBMC function contracts with loop contracts on extracted common/bloom.cpp insert / contains and util/golombrice.h, contract-only lemmas; WP-Int (z3 Int) on the range statement of both GCSFilter constructors",
     },
     "trusted_base": ["specs/C51/spec.c"],
 }
